@@ -123,11 +123,33 @@ class MaterialStub:
         return sym_scalar(self.wi, self.wm, f'mu_{name}', Unit({'mm': -1}), 2, positive=True)
 
 
+class _MemoDecorator:
+    def vp_call(self, interp, args, kwargs, node):
+        return _Memoised(args[0])
+
+
+class _Memoised:
+    """functools.lru_cache(f): the same object is handed out for the same arguments."""
+
+    def __init__(self, fn):
+        self.fn, self.memo = fn, {}
+
+    def vp_call(self, interp, args, kwargs, node):
+        key = repr((args, sorted(kwargs.items())))
+        if key not in self.memo:
+            self.memo[key] = interp.call(self.fn, args, kwargs, node)
+        return self.memo[key]
+
+
 class FoldModel(WitnessModel):
     """Constant folding of the numeric part of the reference rule with numpy itself."""
 
     def call_ext(self, interp, path, args, kwargs, node):
         import numpy as np
+        if path in ('functools.lru_cache', 'functools.cache'):
+            if args and not kwargs and not isinstance(args[0], int):
+                return _Memoised(args[0])
+            return _MemoDecorator()
         if path in ('numpy.polynomial.chebyshev.chebgauss', 'numpy.polynomial.legendre.leggauss') and len(args) == 1 and isinstance(args[0], int):
             fn = np.polynomial.chebyshev.chebgauss if 'chebgauss' in path else np.polynomial.legendre.leggauss
             x, w = fn(args[0])
@@ -166,10 +188,17 @@ def fold_rule(repo, sfi, kind, ratio):
     wi = WitnessInterp(repo, wm)
     cyl = witness_cylinder(wi, wm, repo, radius=F(1), height=ratio)
     k_, quad = call(wi, sfi, [kind], bound=cyl)
-    if k_ != 'return' or not isinstance(quad, dict) or not all(isinstance(quad.get(n), NumArr) for n in ('x', 'y', 'z', 'weights')):
-        return [f'_select_quadrature_points({kind!r}) gives {k_} {quad!r}'[:200]], {}
-    x, y, z, w = (quad[n].a for n in ('x', 'y', 'z', 'weights'))
+    if k_ != 'return':
+        return [f'_select_quadrature_points({kind!r}) raises {quad}'], {}
+    if not isinstance(quad, dict) or not all(isinstance(quad.get(n), NumArr) for n in ('x', 'y', 'z', 'weights')):
+        raise AnalysisError(f'_select_quadrature_points({kind!r}): the numeric part could not be folded ({quad!r})'[:300])
+    x, y, z, w = (quad[n].a.copy() for n in ('x', 'y', 'z', 'weights'))
     probs = []
+    # a second request in the same interpreter (same module state) must give the same rule
+    k2, quad2 = call(wi, sfi, [kind], bound=cyl)
+    if k2 != 'return' or not isinstance(quad2, dict) or not all(isinstance(quad2.get(n), NumArr) and quad2[n].a.shape == quad[n].a.shape
+                                                                and np.array_equal(quad2[n].a, a0) for n, a0 in zip(('x', 'y', 'z', 'weights'), (x, y, z, w), strict=True)):
+        probs.append('the rule handed out on a second request differs from the first (state kept between calls)')
     if not (len(x) == len(y) == len(z) == len(w)) or len(w) == 0:
         return ['arrays of different length'], {}
     if w.min() <= 0:
